@@ -54,6 +54,48 @@ Definition InvC (nl : nat) (gap : option nat) (e : option bad) (wsl : list worke
 Definition Inv (nl : nat) (gap : option nat) (st : state) : Prop :=
   InvC nl gap (err st) (ws st) (handles st) (next st) (av st) (wq st) (lsts st).
 
+(* ---------- the dispatch log (C04) ----------
+   Ghost events: EvSkip g when accept_one passes over worker g, EvDispatch .. g .. n when it sends to g
+   (n = connections g had in progress).  [tr_next] replays the log (newest first) and computes the value
+   `next` must have: every skip/dispatch concerns exactly the worker `next` pointed at, and moves `next`
+   to its cyclic successor.  [TInv] ties the log to the state. *)
+Definition succ_mod_w (W g : nat) : nat := (g + 1) mod W.
+
+Fixpoint tr_next (W : nat) (tr : list event) : option nat :=
+  match tr with
+  | [] => Some 0
+  | e :: r =>
+      match tr_next W r with
+      | None => None
+      | Some cur =>
+          match e with
+          | EvSkip g _ _ | EvDispatch _ _ g _ _ => if Nat.eqb g cur then Some (succ_mod_w W g) else None
+          | _ => Some cur
+          end
+      end
+  end.
+
+Definition dispatch_ok (e : event) : Prop :=
+  match e with
+  | EvDispatch _ _ _ _ n => (Z.of_nat n < L)%Z                     (* the target had spare capacity *)
+  | EvSkip _ n pend => Z.of_nat n = L \/ pend = true               (* the skipped worker was at its limit, or its
+                                                                      release has not been processed yet *)
+  | _ => True
+  end.
+
+Definition TrI (W : nat) (tr : list event) (nx : nat) : Prop :=
+  tr_next W tr = Some nx /\ Forall dispatch_ok tr.
+
+Definition TInv (W : nat) (st : state) : Prop := TrI W (trace st) (next st).
+
+Lemma TrI_emit_other W tr nx e :
+  match e with EvSkip _ _ _ | EvDispatch _ _ _ _ _ => False | _ => True end ->
+  TrI W tr nx -> TrI W (e :: tr) nx.
+Proof.
+  intros He [H1 H2]. unfold TrI. cbn [tr_next]. rewrite H1.
+  split; [destruct e; try reflexivity; contradiction|]. constructor; [destruct e; exact I || contradiction|exact H2].
+Qed.
+
 (* ---------- consequences ---------- *)
 Lemma PInv_limit gap c bit q p wk : PInv gap c bit q p wk -> (Z.of_nat q + Z.of_nat p <= L)%Z.
 Proof.
@@ -307,6 +349,35 @@ Proof.
     split; [exact G0|]. repeat split; congruence.
 Qed.
 
+Lemma env_step_tinv W st o nx : TrI W (trace st) nx -> TrI W (trace (env_step L st o)) nx.
+Proof.
+  intros HT.
+  assert (G : forall l s, TrI W (trace s) nx -> TrI W (trace (fold_left (fun s c => emit s (EvLost (c_id c))) l s)) nx).
+  { induction l as [|x l IHl]; intros s Hs; cbn [fold_left]; [exact Hs|]. apply IHl. cbn [trace emit]. now apply TrI_emit_other. }
+  destruct o; cbn [env_step].
+  - destruct (nth_error (lsts st) tok); [|exact HT]. destruct (l_uds l && negb (l_linked l)).
+    + cbn [trace emit]. now apply TrI_emit_other.
+    + exact HT.
+  - destruct (nth_error (ws st) g) as [w|]; [|exact HT]. destruct (w_open w); [|exact HT].
+    destruct (w_queue w); exact HT.
+  - destruct (nth_error (ws st) g) as [w|]; [|exact HT]. destruct (remove_conn c (w_picked w)) as [[x p]|]; [|exact HT].
+    cbn [trace emit]. apply TrI_emit_other; [exact I|]. unfold guard_drop. destruct (Z.eqb _ _); exact HT.
+  - destruct (nth_error (ws st) g) as [w|]; [|exact HT]. destruct (w_open w); [|exact HT].
+    destruct (w_queue w); [exact HT|].
+    cbn [trace emit]. apply TrI_emit_other; [exact I|]. unfold guard_drop. destruct (Z.eqb _ _); exact HT.
+  - destruct (nth_error (ws st) g) as [w|]; [|exact HT]. destruct (w_open w); [|exact HT].
+    apply G. exact HT.
+  - exact HT.
+  - exact HT.
+  - destruct (nth_error (lsts st) tok); exact HT.
+Qed.
+
+Lemma env_steps_tinv W os nx : forall st, TrI W (trace st) nx -> TrI W (trace (env_steps L st os)) nx.
+Proof.
+  induction os as [|o os IH]; intros st HT; cbn [env_steps fold_left]; [exact HT|].
+  apply IH. now apply env_step_tinv.
+Qed.
+
 (* ---------- inc_counter closes the gap ---------- *)
 Lemma PInv_inc c q p wk :
   PInv true c true q p wk -> PInv false (c + 1) (if (c =? L)%Z then false else true) q p wk.
@@ -418,7 +489,9 @@ Lemma send_connection_inv nl st c ys :
   exists st', send_connection L st c ys = (st', tl ys, SOk) /\ Inv nl None st' /\
               length (wq st') <= length (wq st) + length (hd [] ys) /\
               lsts st' = lsts (env_steps L st (hd [] ys)) /\ paused st' = paused st /\ stopped st' = stopped st /\
-              now st' = now st /\ ptimeout st' = ptimeout st.
+              now st' = now st /\ ptimeout st' = ptimeout st /\
+              length (ws st') = length (ws st) /\
+              (TInv (length (ws st)) st -> TInv (length (ws st)) st').
 Proof.
   intros HI Hys Hb. pose proof HI as (He & HW & Hh & Hnx & Hwf & Hbits & Hnw & Hnl & Hw).
   destruct (nf_ys_hd _ Hys) as [Hhd Htl].
@@ -441,6 +514,12 @@ Proof.
   { pose proof (env_steps_wq_len (hd [] ys) st1). unfold st2. unfold st1 in H at 2. cbn in H. lia. }
   assert (Hls : lsts st2 = lsts (env_steps L st (hd [] ys))).
   { unfold st2, st1. apply env_steps_lsts_congr. reflexivity. }
+  assert (HT : TInv (length (ws st)) st ->
+               TrI (length (ws st)) (trace st2) ((next st2 + 1) mod length (handles st2))).
+  { intros [T1 T2]. rewrite F1, F2. unfold st2. apply env_steps_tinv.
+    unfold TrI, st1. cbn [trace emit next handles upd_worker set_ws tr_next].
+    rewrite T1, Nat.eqb_refl. unfold succ_mod_w. rewrite Hh, seq_length. split; [reflexivity|].
+    constructor; [|exact T2]. cbn. pose proof (Inv_flag_capacity nl st (next st) w HI Hg Hb). lia. }
   destruct (Z.eqb_spec (w_cnt w2) L) as [HeqL|HneL].
   - rewrite av_set_ok by (cbn; exact H512).
     rewrite do_set_next_ok by (cbn; rewrite F1; unfold st1; cbn; rewrite Hh, seq_length; lia).
@@ -449,14 +528,16 @@ Proof.
       destruct HI3 as (A1 & A2 & A3 & A4 & A5). unfold InvC. split; [exact A1|]. split; [exact A2|].
       split; [exact A3|]. split; [|exact A5].
       rewrite A3, seq_length. apply Nat.mod_upper_bound. lia.
-    + cbn. repeat split; auto.
+    + cbn. rewrite length_replace_nth, F4. unfold st1 at 1. cbn. rewrite length_replace_nth.
+      repeat match goal with |- _ /\ _ => split; [solve [auto]|] end. intros HT0. exact (HT HT0).
   - rewrite do_set_next_ok by (cbn; rewrite F1; unfold st1; cbn; rewrite Hh, seq_length; lia).
     eexists. split; [reflexivity|]. split.
     + unfold Inv. cbn. rewrite F1, F2 in *. unfold st1 in HI3 |- *. cbn in HI3 |- *.
       destruct HI3 as (A1 & A2 & A3 & A4 & A5). unfold InvC. split; [exact A1|]. split; [exact A2|].
       split; [exact A3|]. split; [|exact A5].
       rewrite A3, seq_length. apply Nat.mod_upper_bound. lia.
-    + cbn. repeat split; auto.
+    + cbn. rewrite length_replace_nth, F4. unfold st1 at 1. cbn. rewrite length_replace_nth.
+      repeat match goal with |- _ /\ _ => split; [solve [auto]|] end. intros HT0. exact (HT HT0).
 Qed.
 
 (* clearing a flag that is already clear changes nothing observable *)
@@ -484,7 +565,9 @@ Lemma accept_one_inv nl : forall d fuel st c ys k,
   exists st', accept_one L fuel st c ys = (st', tl ys) /\ Inv nl None st' /\
               length (wq st') <= length (wq st) + length (hd [] ys) /\
               lsts st' = lsts (env_steps L st (hd [] ys)) /\ paused st' = paused st /\ stopped st' = stopped st /\
-              now st' = now st /\ ptimeout st' = ptimeout st.
+              now st' = now st /\ ptimeout st' = ptimeout st /\
+              length (ws st') = length (ws st) /\
+              (TInv (length (ws st)) st -> TInv (length (ws st)) st').
 Proof.
   induction d as [d IH] using lt_wf_ind. intros fuel st c ys k HI Hys Hk Hbk Hd Hfuel.
   pose proof HI as (He & HW & Hh & Hnx & Hwf & Hbits & Hnw & Hnl & Hw).
@@ -498,39 +581,54 @@ Proof.
   - destruct (send_connection_inv nl st c ys HI Hys Hb) as (st' & Hs & HI' & Hrest). rewrite Hs.
     exists st'. split; [reflexivity|]. split; [exact HI'|exact Hrest].
   - (* skip this worker *)
-    rewrite av_set_ok by (rewrite <- Hidx; exact H512).
-    assert (Hlenh : 0 < length (handles (set_av st (setb (av st) (N.of_nat (next st)) false)))).
-    { cbn. rewrite Hh, seq_length. lia. }
-    rewrite (do_set_next_ok _ Hlenh). cbn [handles next set_av set_next_ av].
-    rewrite Hh, seq_length. rewrite succ_mod by exact Hnx.
+    rewrite av_set_ok by (cbn; rewrite <- Hidx; exact H512).
+    set (ev := EvSkip (next st) (length (w_queue w) + length (w_picked w)) (pending_notice (N.of_nat (next st)) (wq st))).
+    set (sta := set_av (emit st ev) (setb (av (emit st ev)) (N.of_nat (next st)) false)).
+    assert (Hlenh : 0 < length (handles sta)) by (unfold sta; cbn; rewrite Hh, seq_length; lia).
+    rewrite (do_set_next_ok _ Hlenh).
+    replace (length (handles sta)) with (length (ws st)) by (unfold sta; cbn; now rewrite Hh, seq_length).
+    replace (next sta) with (next st) by reflexivity.
+    rewrite succ_mod by exact Hnx.
     set (nx' := if Nat.eqb (next st + 1) (length (ws st)) then 0 else next st + 1).
-    set (st1 := set_next_ (set_av st (setb (av st) (N.of_nat (next st)) false)) nx').
+    set (st1 := set_next_ sta nx').
     assert (Hnk : next st <> k) by (intros E; rewrite E in Hb; congruence).
     assert (Hnx' : nx' < length (ws st)).
     { unfold nx'. destruct (Nat.eqb_spec (next st + 1) (length (ws st))); lia. }
     assert (HI1 : Inv nl None st1).
-    { unfold Inv, st1. cbn.
+    { unfold Inv, st1, sta. cbn.
       pose proof (InvC_clear_false nl None _ _ _ _ _ _ _ (N.of_nat (next st)) ltac:(lia) Hb HI) as H1.
       destruct H1 as (A1 & A2 & A3 & A4 & A5). unfold InvC. split; [exact A1|]. split; [exact A2|].
       split; [exact A3|]. split; [exact Hnx'|exact A5]. }
     assert (Hbk1 : getb (av st1) (N.of_nat k) = true).
-    { unfold st1. cbn. rewrite getb_setb by lia.
+    { unfold st1, sta. cbn. rewrite getb_setb by lia.
       destruct (N.eqb_spec (N.of_nat (next st)) (N.of_nat k)) as [E|_]; [apply Nat2N.inj in E; congruence|exact Hbk]. }
     assert (Havail : available (av st1) = true).
     { apply available_getb; [apply HI1|]. exists (N.of_nat k). split; [lia|exact Hbk1]. }
-    change (available (setb (av st) (N.of_nat (next st)) false)) with (available (av st1)).
     rewrite Havail.
     assert (Hd1 : cdist (length (ws st1)) (next st1) k < d).
-    { unfold st1. cbn. subst d. unfold cdist, nx'.
+    { unfold st1, sta. cbn. subst d. unfold cdist, nx'.
       destruct (Nat.eqb_spec (next st + 1) (length (ws st)));
         destruct (Nat.leb_spec (next st) k); destruct (Nat.leb_spec 0 k);
         try destruct (Nat.leb_spec (next st + 1) k); lia. }
     destruct (IH _ Hd1 f st1 c ys k HI1 Hys ltac:(exact Hk) Hbk1 eq_refl ltac:(lia))
       as (st' & Hs & HI' & Hrest).
     rewrite Hs. exists st'. split; [reflexivity|]. split; [exact HI'|].
-    destruct Hrest as (R1 & R2 & R3 & R4 & R5 & R6).
+    destruct Hrest as (R1 & R2 & R3 & R4 & R5 & R6 & R7 & R8).
     rewrite (env_steps_lsts_congr (hd [] ys) st1 st eq_refl) in R2.
-    repeat split; assumption.
+    repeat match goal with |- _ /\ _ => split; [solve [auto]|] end.
+    intros [T1 T2]. apply R8. change (length (ws st1)) with (length (ws st)).
+    unfold TInv, TrI, st1, sta, ev. cbn [trace next set_next_ set_av emit tr_next].
+    rewrite T1, Nat.eqb_refl. unfold succ_mod_w. rewrite succ_mod by exact Hnx. fold nx'.
+    split; [reflexivity|]. constructor; [|exact T2].
+    (* the skipped worker is saturated or its notice is pending *)
+    cbn. destruct (Hw _ _ Hg) as (_ & _ & (Hc & _ & Hf)). cbn [isgap] in *. rewrite Hb in Hf.
+    destruct (Hf eq_refl) as (_ & [[Hwk Hc1]|[Hwk Hc1]]); [left; lia|right].
+    unfold pending_notice. unfold nwakes in Hwk.
+    destruct (filter _ (wq st)) as [|x l] eqn:Ef; [discriminate|].
+    apply existsb_exists. exists x.
+    assert (Hin : In x (filter (fun x => match x with IAvail j => N.eqb (N.of_nat (next st)) j | _ => false end) (wq st)))
+      by (rewrite Ef; now left).
+    apply filter_In in Hin. exact Hin.
 Qed.
 
 (* ---------- Accept::accept ---------- *)
@@ -576,7 +674,8 @@ Proof. intros H. unfold set_timeout. destruct (ptimeout st); [destruct (N.ltb d 
 
 Lemma set_timeout_frame st d :
   lsts (set_timeout st d) = lsts st /\ wq (set_timeout st d) = wq st /\ paused (set_timeout st d) = paused st /\
-  stopped (set_timeout st d) = stopped st /\ now (set_timeout st d) = now st.
+  stopped (set_timeout st d) = stopped st /\ now (set_timeout st d) = now st /\
+  ws (set_timeout st d) = ws st /\ trace (set_timeout st d) = trace st /\ next (set_timeout st d) = next st.
 Proof. unfold set_timeout. destruct (ptimeout st); [destruct (N.ltb d n)|]; repeat split. Qed.
 
 Lemma Inv_upd_lst nl gap st tok l : Inv nl gap st -> Inv nl gap (upd_lst st tok l).
@@ -587,15 +686,30 @@ Qed.
 
 Definition Post (nl : nat) (st : state) (ys : ysched) (st' : state) (ys' : ysched) : Prop :=
   Inv nl None st' /\ nf_ys ys' = true /\ length (wq st') + ysize ys' <= length (wq st) + ysize ys /\
-  paused st' = paused st /\ stopped st' = stopped st /\ now st' = now st.
+  paused st' = paused st /\ stopped st' = stopped st /\ now st' = now st /\
+  length (ws st') = length (ws st) /\
+  (TInv (length (ws st)) st -> TInv (length (ws st)) st').
 
 Lemma Post_refl nl st ys : Inv nl None st -> nf_ys ys = true -> Post nl st ys st ys.
-Proof. intros. unfold Post. split; [assumption|]. split; [assumption|]. repeat split. lia. Qed.
+Proof. intros. unfold Post. split; [assumption|]. split; [assumption|]. split; [lia|].
+  repeat match goal with |- _ /\ _ => split; [reflexivity|] end. auto. Qed.
 
 Lemma Post_trans nl s0 y0 s1 y1 s2 y2 : Post nl s0 y0 s1 y1 -> Post nl s1 y1 s2 y2 -> Post nl s0 y0 s2 y2.
 Proof.
-  intros (A1 & A2 & A3 & A4 & A5 & A6) (B1 & B2 & B3 & B4 & B5 & B6). unfold Post.
-  split; [exact B1|]. split; [exact B2|]. split; [lia|]. repeat split; congruence.
+  intros (A1 & A2 & A3 & A4 & A5 & A6 & A7 & A8) (B1 & B2 & B3 & B4 & B5 & B6 & B7 & B8). unfold Post.
+  split; [exact B1|]. split; [exact B2|]. split; [lia|].
+  split; [congruence|]. split; [congruence|]. split; [congruence|]. split; [congruence|].
+  intros HT. rewrite A7 in B8. auto.
+Qed.
+
+(* steps that touch neither the workers, nor `next`, nor the log *)
+Lemma Post_frame nl st ys st' :
+  Inv nl None st' -> nf_ys ys = true -> wq st' = wq st -> paused st' = paused st -> stopped st' = stopped st ->
+  now st' = now st -> ws st' = ws st -> trace st' = trace st -> next st' = next st -> Post nl st ys st' ys.
+Proof.
+  intros HI Hys Hq Hp Hs Hn Hw Ht Hx. unfold Post. split; [exact HI|]. split; [exact Hys|]. rewrite Hq, Hw.
+  split; [lia|]. repeat match goal with |- _ /\ _ => split; [solve [auto]|] end.
+  unfold TInv. now rewrite Ht, Hx.
 Qed.
 
 Lemma accept_loop_inv nl : forall fuel st tok ys,
@@ -621,7 +735,7 @@ Proof.
       pose proof (Hbits i Hi Hbi) as Hik.
       assert (Hbk : getb (av st1) (N.of_nat (N.to_nat i)) = true) by (rewrite N2Nat.id; exact Hbi).
       destruct (accept_one_inv nl _ (accept_one_fuel st1) st1 {| c_id := c; c_tok := tok |} ys (N.to_nat i)
-                  HI1 Hys Hik Hbk eq_refl) as (st2 & Hs & HI2 & Hwq & Hls & Hp & Hst & Hnow & _).
+                  HI1 Hys Hik Hbk eq_refl) as (st2 & Hs & HI2 & Hwq & Hls & Hp & Hst & Hnow & _ & Hlw & HTI).
       { unfold accept_one_fuel, st1. cbn. rewrite Hh, seq_length. unfold cdist.
         destruct (Nat.leb (next st) (N.to_nat i)); lia. }
       rewrite Hs.
@@ -634,23 +748,22 @@ Proof.
       rewrite Hs'. exists st', ys'. split; [reflexivity|].
       eapply Post_trans; [|exact HP']. unfold Post. split; [exact HI2|]. split; [exact Htl|].
       split; [rewrite (ysize_hd_tl ys); unfold st1 in Hwq; cbn in Hwq; lia|].
-      repeat split; assumption.
+      repeat match goal with |- _ /\ _ => split; [solve [auto]|] end. exact HTI.
   - set (l1 := {| l_uds := l_uds l; l_reg := l_reg l; l_edge := l_edge l; l_to := l_to l; l_backlog := l_backlog l;
                   l_inject := rest; l_linked := l_linked l |}).
     destruct k.
     + exists (upd_lst st tok l1), ys. split; [reflexivity|].
-      unfold Post. split; [now apply Inv_upd_lst|]. repeat split; auto.
+      apply Post_frame; auto. now apply Inv_upd_lst.
     + assert (HI1 : Inv nl None (upd_lst st tok l1)) by (apply Inv_upd_lst; exact HI).
       assert (Hm1 : lmeas (lsts (upd_lst st tok l1)) tok + ysize ys < f).
       { cbn [lsts upd_lst set_lsts]. rewrite lmeas_replace by exact Hlt. cbn [l1 l_backlog l_inject]. cbn [length] in Hm. lia. }
       destruct (IH _ tok ys HI1 Hys Htok Hm1) as (st' & ys' & Hs' & HP').
       rewrite Hs'. exists st', ys'. split; [reflexivity|].
-      eapply Post_trans; [|exact HP']. unfold Post. split; [exact HI1|]. repeat split; auto.
+      eapply Post_trans; [|exact HP']. apply Post_frame; auto.
     + eexists _, ys. split; [reflexivity|].
       pose proof (set_timeout_frame (upd_lst st tok (set_l_to (deregister l1) (Some (now st + 500)%N))) 510%N)
-        as (F1 & F2 & F3 & F4 & F5).
-      unfold Post. split; [apply Inv_set_timeout, Inv_upd_lst; exact HI|].
-      split; [exact Hys|]. rewrite F2, F3, F4, F5. repeat split; auto.
+        as (F1 & F2 & F3 & F4 & F5 & F6 & F7 & F8).
+      apply Post_frame; auto. apply Inv_set_timeout, Inv_upd_lst; exact HI.
 Qed.
 
 Lemma accept_inv nl st tok ys :
@@ -682,6 +795,22 @@ Proof.
   intros HI Hys. unfold accept_all. apply accept_toks_inv; auto.
   rewrite (Inv_lsts_len _ _ _ HI). apply Forall_forall. intros t Ht. apply in_seq in Ht. lia.
 Qed.
+
+(* frame for the dispatch log *)
+Definition Fr (st st' : state) : Prop :=
+  length (ws st') = length (ws st) /\ (TInv (length (ws st)) st -> TInv (length (ws st)) st').
+
+Lemma Fr_refl st : Fr st st.
+Proof. split; auto. Qed.
+
+Lemma Fr_trans s0 s1 s2 : Fr s0 s1 -> Fr s1 s2 -> Fr s0 s2.
+Proof. intros [A1 A2] [B1 B2]. split; [congruence|]. intros H. rewrite A1 in B2. auto. Qed.
+
+Lemma Fr_same st st' : ws st' = ws st -> trace st' = trace st -> next st' = next st -> Fr st st'.
+Proof. intros Hw Ht Hn. split; [now rewrite Hw|]. unfold TInv. now rewrite Ht, Hn. Qed.
+
+Lemma Fr_of_Post nl st ys st' ys' : Post nl st ys st' ys' -> Fr st st'.
+Proof. intros (_ & _ & _ & _ & _ & _ & A & B). split; assumption. Qed.
 
 (* ---------- Accept::handle_waker ---------- *)
 Lemma Inv_deregister_all nl gap st : Inv nl gap st -> Inv nl gap (deregister_all st).
@@ -747,18 +876,20 @@ Qed.
 
 Lemma handle_waker_inv nl : forall fuel st ys,
   Inv nl None st -> nf_ys ys = true -> length (wq st) + ysize ys < fuel ->
-  exists st' ys', handle_waker L fuel st ys = (st', ys') /\ Inv nl None st' /\ nf_ys ys' = true.
+  exists st' ys', handle_waker L fuel st ys = (st', ys') /\ Inv nl None st' /\ nf_ys ys' = true /\ Fr st st'.
 Proof.
   induction fuel as [|f IH]; intros st ys HI Hys Hfuel; [lia|].
   pose proof HI as (He & HW & Hh & Hnx & Hwf & Hbits & Hnw & Hnl & Hw).
   cbn [handle_waker]. rewrite He.
-  destruct (wq st) as [|i rest] eqn:Hq; [exists st, ys; auto|].
+  destruct (wq st) as [|i rest] eqn:Hq;
+    [exists st, ys; split; [reflexivity|]; split; [exact HI|]; split; [exact Hys|apply Fr_refl]|].
   set (st0 := set_wq st rest (wpend st)).
   assert (Hq0 : wq st0 = rest) by reflexivity.
+  assert (Fr0 : Fr st st0) by (apply Fr_same; reflexivity).
   destruct i as [idx|g| | |].
   - (* WorkerAvailable *)
     set (st1 := if existsb _ (handles st0) then av_set st0 idx true else st0).
-    assert (HI1 : Inv nl None st1 /\ wq st1 = rest /\ paused st1 = paused st).
+    assert (HI1 : Inv nl None st1 /\ wq st1 = rest /\ paused st1 = paused st /\ Fr st st1).
     { pose proof (InvC_wake nl _ _ _ _ _ rest _ idx ltac:(unfold Inv in HI; rewrite Hq in HI; exact HI)) as H1.
       unfold st1. change (handles st0) with (handles st). change (ws st0) with (ws st).
       destruct (existsb _ (handles st)) eqn:Hex.
@@ -766,25 +897,29 @@ Proof.
         { apply existsb_exists in Hex as (g & Hin & Hg). rewrite Hh in Hin. apply in_seq in Hin.
           destruct (nth_error (ws st) g) as [w|] eqn:Eg; [|discriminate]. apply N.eqb_eq in Hg.
           destruct (Hw _ _ Eg) as (Hidx & _). lia. }
-        rewrite av_set_ok by exact H512. split; [exact H1|split; reflexivity].
-      - split; [exact H1|split; reflexivity]. }
-    destruct HI1 as (HI1 & Hq1 & Hp1).
+        rewrite av_set_ok by exact H512. split; [exact H1|]. split; [reflexivity|]. split; [reflexivity|].
+        apply Fr_same; reflexivity.
+      - split; [exact H1|]. split; [reflexivity|]. split; [reflexivity|exact Fr0]. }
+    destruct HI1 as (HI1 & Hq1 & Hp1 & Fr1).
     destruct (paused st1) eqn:Hpa.
-    + destruct (IH st1 ys HI1 Hys) as (st' & ys' & Hs & HI' & Hys'); [rewrite Hq1; cbn in Hfuel; lia|].
-      rewrite Hs. exists st', ys'. auto.
-    + destruct (accept_all_inv nl st1 ys HI1 Hys) as (st2 & ys2 & Hs2 & HI2 & Hys2 & Hm2 & _). rewrite Hs2.
-      destruct (IH st2 ys2 HI2 Hys2) as (st' & ys' & Hs & HI' & Hys'); [rewrite Hq1 in Hm2; cbn in Hfuel; lia|].
-      rewrite Hs. exists st', ys'. auto.
+    + destruct (IH st1 ys HI1 Hys) as (st' & ys' & Hs & HI' & Hys' & Fr'); [rewrite Hq1; cbn in Hfuel; lia|].
+      rewrite Hs. exists st', ys'. repeat (split; [solve [auto]|]). eapply Fr_trans; eassumption.
+    + destruct (accept_all_inv nl st1 ys HI1 Hys) as (st2 & ys2 & Hs2 & HP2). rewrite Hs2.
+      pose proof (Fr_of_Post _ _ _ _ _ HP2) as Fr2. destruct HP2 as (HI2 & Hys2 & Hm2 & _).
+      destruct (IH st2 ys2 HI2 Hys2) as (st' & ys' & Hs & HI' & Hys' & Fr'); [rewrite Hq1 in Hm2; cbn in Hfuel; lia|].
+      rewrite Hs. exists st', ys'. repeat (split; [solve [auto]|]).
+      eapply Fr_trans; [exact Fr1|]. eapply Fr_trans; eassumption.
   - exfalso. apply (Hnw g). now left.
   - (* Pause *)
     assert (HI0 : Inv nl None st0).
     { unfold Inv, st0. cbn. eapply InvC_pop_other; [|unfold Inv in HI; rewrite Hq in HI; exact HI]. discriminate. }
     set (st1 := if paused st0 then st0 else deregister_all (set_paused st0 true)).
-    assert (HI1 : Inv nl None st1 /\ wq st1 = rest).
-    { unfold st1. destruct (paused st0); [auto|]. split; [|reflexivity]. apply Inv_deregister_all. exact HI0. }
-    destruct HI1 as (HI1 & Hq1).
-    destruct (IH st1 ys HI1 Hys) as (st' & ys' & Hs & HI' & Hys'); [rewrite Hq1; cbn in Hfuel; lia|].
-    rewrite Hs. exists st', ys'. auto.
+    assert (HI1 : Inv nl None st1 /\ wq st1 = rest /\ Fr st st1).
+    { unfold st1. destruct (paused st0); [auto|]. split; [|split; [reflexivity|apply Fr_same; reflexivity]].
+      apply Inv_deregister_all. exact HI0. }
+    destruct HI1 as (HI1 & Hq1 & Fr1).
+    destruct (IH st1 ys HI1 Hys) as (st' & ys' & Hs & HI' & Hys' & Fr'); [rewrite Hq1; cbn in Hfuel; lia|].
+    rewrite Hs. exists st', ys'. repeat (split; [solve [auto]|]). eapply Fr_trans; eassumption.
   - (* Resume *)
     assert (HI0 : Inv nl None st0).
     { unfold Inv, st0. cbn. eapply InvC_pop_other; [|unfold Inv in HI; rewrite Hq in HI; exact HI]. discriminate. }
@@ -792,16 +927,21 @@ Proof.
     + set (st1 := set_lsts (set_paused st0 false) (map register (lsts st0))).
       assert (HI1 : Inv nl None st1).
       { unfold Inv, st1. cbn. eapply InvC_change_ls; [|exact HI0]. rewrite map_length. exact Hnl. }
-      destruct (accept_all_inv nl st1 ys HI1 Hys) as (st2 & ys2 & Hs2 & HI2 & Hys2 & Hm2 & _). rewrite Hs2.
-      destruct (IH st2 ys2 HI2 Hys2) as (st' & ys' & Hs & HI' & Hys'); [unfold st1 in Hm2; cbn in Hm2, Hfuel; lia|].
-      rewrite Hs. exists st', ys'. auto.
-    + destruct (IH st0 ys HI0 Hys) as (st' & ys' & Hs & HI' & Hys'); [rewrite Hq0; cbn in Hfuel; lia|].
-      rewrite Hs. exists st', ys'. auto.
+      assert (Fr1 : Fr st st1) by (apply Fr_same; reflexivity).
+      destruct (accept_all_inv nl st1 ys HI1 Hys) as (st2 & ys2 & Hs2 & HP2). rewrite Hs2.
+      pose proof (Fr_of_Post _ _ _ _ _ HP2) as Fr2. destruct HP2 as (HI2 & Hys2 & Hm2 & _).
+      destruct (IH st2 ys2 HI2 Hys2) as (st' & ys' & Hs & HI' & Hys' & Fr'); [unfold st1 in Hm2; cbn in Hm2, Hfuel; lia|].
+      rewrite Hs. exists st', ys'. repeat (split; [solve [auto]|]).
+      eapply Fr_trans; [exact Fr1|]. eapply Fr_trans; eassumption.
+    + destruct (IH st0 ys HI0 Hys) as (st' & ys' & Hs & HI' & Hys' & Fr'); [rewrite Hq0; cbn in Hfuel; lia|].
+      rewrite Hs. exists st', ys'. repeat (split; [solve [auto]|]). exact (Fr_trans _ _ _ Fr0 Fr').
   - (* Stop *)
     assert (HI0 : Inv nl None st0).
     { unfold Inv, st0. cbn. eapply InvC_pop_other; [|unfold Inv in HI; rewrite Hq in HI; exact HI]. discriminate. }
-    eexists _, ys. split; [reflexivity|]. split; [|exact Hys].
-    destruct (paused st0); [exact HI0|]. apply Inv_deregister_all in HI0. exact HI0.
+    eexists _, ys. split; [reflexivity|]. split; [|split; [exact Hys|]].
+    + destruct (paused st0); [exact HI0|]. apply Inv_deregister_all in HI0. exact HI0.
+    + split; [destruct (paused st0); reflexivity|]. intros HT. unfold TInv. cbn [trace next emit].
+      apply TrI_emit_other; [exact I|]. destruct (paused st0); exact HT.
 Qed.
 
 (* ---------- Accept::process_timeout ---------- *)
@@ -831,40 +971,64 @@ Proof.
   - apply IH in Hin. cbn. lia.
 Qed.
 
+Lemma process_timeout_fr st : Fr st (process_timeout st).
+Proof.
+  unfold process_timeout. destruct (ptimeout st); [|apply Fr_refl].
+  destruct (fold_left _ _ _) as [ls pt]. apply Fr_same; reflexivity.
+Qed.
+
+Lemma env_step_fr st o : nf_eop o = true -> Fr st (env_step L st o).
+Proof.
+  intros Hnf. destruct (env_step_frame st o Hnf) as (_ & F2 & _ & _ & F5 & _).
+  split; [exact F5|]. intros HT. unfold TInv. rewrite F2. apply env_step_tinv. exact HT.
+Qed.
+
 Lemma step_inv nl st o :
-  nf_op o = true -> tok_ok nl o = true -> Inv nl None st -> Inv nl None (step L st o).
+  nf_op o = true -> tok_ok nl o = true -> Inv nl None st -> Inv nl None (step L st o) /\ Fr st (step L st o).
 Proof.
   intros Hnf Htok HI. destruct o as [e|tok ys|ys| |ys|ms]; cbn [step nf_op tok_ok] in *.
-  - now apply env_step_inv.
-  - destruct (live st); [|exact HI]. apply Nat.ltb_lt in Htok.
-    destruct (accept_inv nl st tok ys HI Hnf Htok) as (st' & ys' & Hs & HI' & _). rewrite Hs. exact HI'.
-  - destruct (live st); [|exact HI].
-    destruct (handle_waker_inv nl (handle_waker_fuel st ys) st ys HI Hnf) as (st' & ys' & Hs & HI' & _).
+  - split; [now apply env_step_inv|now apply env_step_fr].
+  - destruct (live st); [|split; [exact HI|apply Fr_refl]]. apply Nat.ltb_lt in Htok.
+    destruct (accept_inv nl st tok ys HI Hnf Htok) as (st' & ys' & Hs & HP). rewrite Hs. cbn [fst].
+    split; [exact (proj1 HP)|exact (Fr_of_Post _ _ _ _ _ HP)].
+  - destruct (live st); [|split; [exact HI|apply Fr_refl]].
+    destruct (handle_waker_inv nl (handle_waker_fuel st ys) st ys HI Hnf) as (st' & ys' & Hs & HI' & _ & Fr').
     { unfold handle_waker_fuel. lia. }
-    rewrite Hs. exact HI'.
-  - destruct (live st); [|exact HI]. now apply process_timeout_inv.
-  - destruct (live st); [|exact HI].
+    rewrite Hs. cbn [fst]. split; assumption.
+  - destruct (live st); [|split; [exact HI|apply Fr_refl]].
+    split; [now apply process_timeout_inv|apply process_timeout_fr].
+  - destruct (live st); [|split; [exact HI|apply Fr_refl]].
     set (st0 := emit _ _).
     assert (HI0 : Inv nl None st0).
     { unfold Inv, st0. cbn. eapply InvC_change_ls; [|exact HI]. unfold clear_edges. rewrite map_length.
       exact (Inv_lsts_len _ _ _ HI). }
-    destruct (accept_toks_inv nl (ready_toks 0 (lsts st)) st0 ys HI0 Hnf) as (st1 & ys1 & Hs1 & HI1 & Hys1 & _).
+    assert (Fr0 : Fr st st0).
+    { split; [reflexivity|]. intros HT. unfold TInv, st0. cbn [trace next emit]. apply TrI_emit_other; [exact I|exact HT]. }
+    destruct (accept_toks_inv nl (ready_toks 0 (lsts st)) st0 ys HI0 Hnf) as (st1 & ys1 & Hs1 & HP1).
     { apply Forall_forall. intros t Ht. apply ready_toks_bound in Ht. rewrite (Inv_lsts_len _ _ _ HI) in Ht. lia. }
-    rewrite Hs1.
+    rewrite Hs1. pose proof (Fr_of_Post _ _ _ _ _ HP1) as Fr1. destruct HP1 as (HI1 & Hys1 & _).
     destruct (wpend st).
-    + destruct (handle_waker_inv nl (handle_waker_fuel st1 ys1) st1 ys1 HI1 Hys1) as (st2 & ys2 & Hs2 & HI2 & _).
+    + destruct (handle_waker_inv nl (handle_waker_fuel st1 ys1) st1 ys1 HI1 Hys1) as (st2 & ys2 & Hs2 & HI2 & _ & Fr2).
       { unfold handle_waker_fuel. lia. }
-      rewrite Hs2. destruct (live st2); [now apply process_timeout_inv|exact HI2].
-    + destruct (live st1); [now apply process_timeout_inv|exact HI1].
-  - exact HI.
+      rewrite Hs2. destruct (live st2).
+      * split; [now apply process_timeout_inv|].
+        eapply Fr_trans; [exact Fr0|]. eapply Fr_trans; [exact Fr1|]. eapply Fr_trans; [exact Fr2|apply process_timeout_fr].
+      * split; [exact HI2|]. eapply Fr_trans; [exact Fr0|]. eapply Fr_trans; [exact Fr1|exact Fr2].
+    + destruct (live st1).
+      * split; [now apply process_timeout_inv|].
+        eapply Fr_trans; [exact Fr0|]. eapply Fr_trans; [exact Fr1|apply process_timeout_fr].
+      * split; [exact HI1|]. eapply Fr_trans; [exact Fr0|exact Fr1].
+  - split; [exact HI|apply Fr_same; reflexivity].
 Qed.
 
 Lemma run_inv nl os : forall st,
-  forallb nf_op os = true -> forallb (tok_ok nl) os = true -> Inv nl None st -> Inv nl None (run L st os).
+  forallb nf_op os = true -> forallb (tok_ok nl) os = true -> Inv nl None st ->
+  Inv nl None (run L st os) /\ Fr st (run L st os).
 Proof.
-  induction os as [|o os IH]; intros st Hnf Htok HI; cbn [run fold_left]; [exact HI|].
+  induction os as [|o os IH]; intros st Hnf Htok HI; cbn [run fold_left]; [split; [exact HI|apply Fr_refl]|].
   cbn [forallb] in Hnf, Htok. apply andb_true_iff in Hnf as [Ho Hos]. apply andb_true_iff in Htok as [To Tos].
-  apply IH; auto. now apply step_inv.
+  destruct (step_inv nl st o Ho To HI) as [HI1 Fr1].
+  destruct (IH _ Hos Tos HI1) as [HI2 Fr2]. split; [exact HI2|]. eapply Fr_trans; eassumption.
 Qed.
 
 (* ---------- the initial state ---------- *)
@@ -901,5 +1065,15 @@ Theorem reachable_inv W kinds os :
   1 <= W <= 512 -> forallb nf_op os = true -> forallb (tok_ok (length kinds)) os = true ->
   Inv (length kinds) None (run L (init W kinds) os).
 Proof. intros HW Hnf Htok. apply run_inv; auto. now apply init_inv. Qed.
+
+Theorem reachable_tinv W kinds os :
+  1 <= W <= 512 -> forallb nf_op os = true -> forallb (tok_ok (length kinds)) os = true ->
+  TInv W (run L (init W kinds) os) /\ length (ws (run L (init W kinds) os)) = W.
+Proof.
+  intros HW Hnf Htok.
+  destruct (run_inv (length kinds) os (init W kinds) Hnf Htok (init_inv W kinds HW)) as [_ [F1 F2]].
+  assert (HlenW : length (ws (init W kinds)) = W) by (cbn; now rewrite map_length, seq_length).
+  rewrite HlenW in *. split; [|exact F1]. apply F2. split; [reflexivity|constructor].
+Qed.
 
 End Facts.
